@@ -572,7 +572,7 @@ class Exec:
             mod = set(targets.keys())
             # allocation counters and local temporaries touched in the body are always havocked
             for key in self.loop_modset(h):
-                if key[0] == 'alloc' or (key[0] == 'cell'):
+                if key[0] == 'alloc' or (key[0] == 'cell') or (key[0] == 'ghost' and str(key[1]).startswith(('visited_', 'strpos_'))):
                     mod.add(key)
             for key, locs in targets.items():
                 if all(l is not None for l in locs) and key[0] in ('f', 'el', 'cell', 'mdom', 'mval', 'msize'):
